@@ -61,7 +61,8 @@ const TERMS: &[&str] = &[
     "fold", "rfold", "count", "last", "collect", "revcollect", "dbg", "dbgalt", "drop", "fused", "clonedrop",
 ];
 
-type Key = (bool, usize, usize, usize);
+/// (origin is a clone, clone taken at len, model front since origin, physical front (information only), len)
+type Key = (bool, usize, usize, usize, usize);
 
 /// local type with the same name, so `#[derive(Debug)]` gives the reference rendering of a
 /// tuple struct called `GenericArrayIter` wrapping the remaining elements.
@@ -91,7 +92,8 @@ fn probe<E: Elem, const K: usize>(it: &GenericArrayIter<E, ConstArrayLength<K>>)
 where
     Const<K>: IntoArrayLength,
 {
-    it.as_slice().as_ptr() as usize - it as *const _ as usize
+    // wrapping: only used to tell states apart, never asserted (an implementation is free to keep its storage elsewhere)
+    (it.as_slice().as_ptr() as usize).wrapping_sub(it as *const _ as usize)
 }
 
 impl<E: Elem, const K: usize> Sys<E, K>
@@ -119,9 +121,9 @@ where
 
     fn key(&self, base_off: usize) -> Key {
         let sz = core::mem::size_of::<E>();
-        let front = if sz == 0 { self.mfront } else { (probe::<E, K>(&self.it) - base_off) / sz };
+        let phys = if sz == 0 { 0 } else { probe::<E, K>(&self.it).wrapping_sub(base_off) / sz };
         let cl = if K <= 8 { self.clone_len } else { 0 };
-        (self.is_clone, cl, front, self.it.len())
+        (self.is_clone, cl, self.mfront, phys, self.it.len())
     }
 
     fn ledger(&self, held: Option<u32>) -> Result<(), String> {
@@ -479,7 +481,7 @@ where
     out.set(Some((key, some)));
     Ok(CaseInfo::new(
         K > 0 && len_before > 0,
-        format!("{}:{}:{}", op.kind(), if some { "some" } else { "none" }, if key.3 == 0 { "to-empty" } else { "to-nonempty" }),
+        format!("{}:{}:{}", op.kind(), if some { "some" } else { "none" }, if key.4 == 0 { "to-empty" } else { "to-nonempty" }),
     ))
 }
 
